@@ -12,7 +12,7 @@ EXPLANATION = (
     "poll), stream/sink/context/buffer/size agreement of every dispatch, return-value provenance (0 only via the closed-pipe "
     "result of poll, deadline -> timeout error, first non-zero sink result returned at once), sink_string size/writer agreement "
     "(linear forms) and failure atomicity, reproc_run_ex ordering, first-error propagation and destroy on every path; the C++ "
-    "templates are instantiated and mirror the C skeleton. Not decided: which chunks arrive in which order from the two streams. The string sink's append offset is a variable whose only definitions are 0 and strlen() of the caller's current string; poll reports an expired deadline at once as the only event (C09.V3d), which is what makes drain return the timeout error.")
+    "templates are instantiated and mirror the C skeleton. Not decided: which chunks arrive in which order from the two streams. The string sink's append offset is a variable whose only definitions are 0 and strlen() of the caller's current string; poll reports an expired deadline at once as the only event (C09.V3d), which is what makes drain return the timeout error. No function of reproc++ resolved as non-throwing performs a throwing standard-library operation (G6x); the drain model of poll reports every event the source asks for (a drain that returns on the exit event is seen).")
 ASSUMPTIONS = [
     "clang 14 parser/CFG and the fact extractor are correct",
     "reproc_poll / reproc_read behave as their own properties (C09, C02) say; here they are outcome models",
